@@ -10,7 +10,7 @@ LEVEL = "exploration"
 RULE = (
     "one run = one seeded scene from the class the property names: animals on a lattice of pitch D >= 10 body "
     "sizes, per-frame motion <= D/40 (bounded wobble + common drift), absences of at most window_size-2 frames, a "
-    "newcomer only in a frame where every previously seen animal is detected, detection order permuted every "
+    "newcomer only in a frame where every previously seen animal is detected, animals may leave for good, detection order permuted every "
     "frame, nodes 0/1 always visible; fed to the real Tracker under a seeded configuration. Oracle: the relation "
     "animal <-> track name over the whole history is an injective function. Non-trivial = >= 2 animals or an "
     "absence, and >= 3 frames; distinct = digest of (configuration, presence pattern, permutation pattern)"
@@ -71,6 +71,16 @@ def gen_plan(rng, index, tier):
                             t += g + 1
                             continue
                 t += 1
+    # permanent departures: an animal leaves for good (after the last arrival, so no newcomer ever appears while it is
+    # missing); the animals that stay are never absent and must keep their identities however stale the leaver's track gets
+    last_arrival = max(arrive)
+    if K > 1 and F - last_arrival > 3:
+        for a in range(K):
+            if rng.random() < 0.2 and sum(1 for b in range(K) if present[F - 1][b]) > 1:
+                td = rng.randint(last_arrival + 1, F - 2)
+                for u in range(td, F):
+                    present[u][a] = False
+                fired["permanent_departure"] = fired.get("permanent_departure", 0) + 1
     if any(arrive[a] > 0 for a in range(K)):
         fired["late_arrival"] = sum(1 for a in range(K) if arrive[a] > 0)
     frames = []
@@ -204,6 +214,7 @@ def execute(plan, choices=None):
             "absence_within_window": int(had_gap),
             "single_animal": int(K_seen == 1),
             "permuted_every_frame": int("permute_detections" in plan.get("faults_fired", {})),
+            "animal_left_for_good": int("permanent_departure" in plan.get("faults_fired", {})),
         },
         "faults": plan.get("faults_fired", {}),
         "sim_us": len(frames) * 33333,
